@@ -8,7 +8,8 @@ from hypothesis import strategies as st
 BORDER_STYLES = ["single", "double", "thick", "dotted", "dashed", "small-dash", "dash-dotted",
                  "dash-dot-dotted", "triple", "wavy", "double-wavy", "striped", "embossed",
                  "engraved", "frame", ""]
-PALETTE = ["red", "blue", "green", "gold", "gray50", "darkorange", "navy", "firebrick3", "white"]
+PALETTE = ["red", "blue", "green", "gold", "gray50", "darkorange", "navy", "firebrick3", "white",
+           "gray", "grey", "blue1", "gray100"]      # aliases: several names, one RGB value
 PLACEMENTS = ["first", "last", "all"]
 DICT_WORDS = ["fcharset", "page", "par", "rtf1", "cell", "row", "-----", "__NULL__", "a|b", "None",
               "null", "nan", "pard", "colortbl", "0", "-0", "1e5"]
@@ -146,7 +147,8 @@ def _val_strategy(name, cfg: Cfg):
         return st.integers(1, 10)
     if name == "text_font_size":
         if cfg.half_points:
-            return st.one_of(st.integers(6, 24), st.integers(12, 48).map(lambda x: x / 2))
+            return st.one_of(st.integers(6, 24), st.integers(12, 48).map(lambda x: x / 2),
+                             st.sampled_from([9.3, 9.4, 8.8, 11.9, 10.25, 7.75, 6.1]))
         return st.integers(6, 24)
     if name == "text_format":
         return st.sampled_from(["", "b", "i", "u", "s", "bi", "^", "_", "biu"])
